@@ -459,8 +459,10 @@ fn evaluate_for(
             Ok(())
         }
         [ForIteration::Guard(guard), rest @ ..] => {
-            let r = evaluate(env, guard)?;
-            if r.truthy() {
+            // only the truthiness is needed: release the value before the body runs, so that a
+            // guard that evaluates to a collection does not keep a second reference to it
+            let r = evaluate(env, guard)?.truthy();
+            if r {
                 evaluate_for(env, rest, callback)
             } else {
                 Ok(())
@@ -791,6 +793,8 @@ pub fn evaluate(env: &Rc<RefCell<Env>>, expr: &LocExpr) -> NRes<Obj> {
         Expr::And(lhs, rhs) => {
             let lr = evaluate(env, lhs)?;
             if lr.truthy() {
+                // the left value is not the result: release it before the right operand runs
+                drop(lr);
                 evaluate(env, rhs)
             } else {
                 Ok(lr)
@@ -801,6 +805,7 @@ pub fn evaluate(env: &Rc<RefCell<Env>>, expr: &LocExpr) -> NRes<Obj> {
             if lr.truthy() {
                 Ok(lr)
             } else {
+                drop(lr);
                 evaluate(env, rhs)
             }
         }
@@ -1135,13 +1140,16 @@ pub fn evaluate(env: &Rc<RefCell<Env>>, expr: &LocExpr) -> NRes<Obj> {
             }
         }
         Expr::If(cond, if_body, else_body) => {
+            // only the truthiness is needed: release the condition's value before the branch
+            // runs (`if (xs) xs append= y` would otherwise copy xs, which the value still shares)
             let cr = add_trace(
                 evaluate(env, cond),
                 || "if-cond".to_string(),
                 expr.start,
                 expr.end,
-            )?;
-            if cr.truthy() {
+            )?
+            .truthy();
+            if cr {
                 add_trace(
                     evaluate(env, if_body),
                     || "if-branch".to_string(),
